@@ -65,6 +65,10 @@ def selftest():
         shim_selftest = None
     if shim_selftest:
         shim_selftest()
+        from shimtest import run_vectors
+        bad = run_vectors()
+        if bad:   # a property of the tree under test, not of the machinery: C11 reports it as a violation
+            print("note: RFC 8613 appendix C vectors fail on this tree:", bad[:2])
     print("selftest ok")
     return 0
 
